@@ -634,7 +634,8 @@ pub fn alphabet(cfg: &Cfg) -> Vec<Op> {
         // weights whose sums cross u32::MAX (capacity 2^33)
         "bigw" => {
             for k in 0..n {
-                for w in [250u8, 251, 252] {
+                // (a small weight too: updates from 1 to > i32::MAX and back)
+                for w in [250u8, 251, 252, 1] {
                     a.push(Op::Ins(k, w));
                 }
             }
